@@ -1,6 +1,6 @@
 (* C02 - ForceFlush and Shutdown are complete, final (and always return: evidenced by the scheduled runs, not a theorem).
    Property theorems only; proofs are in Batch/Proofs*.v and Batch/Theorems.v. *)
-From V Require Import Batch.Model Batch.ProofsA Batch.ProofsB Batch.Theorems Batch.Compose Batch.ComposeProofs.
+From V Require Import Batch.Model Batch.ProofsA Batch.ProofsB Batch.Theorems Batch.Compose Batch.ComposeProofs Batch.Periodic Batch.PeriodicProofs.
 From Coq Require Import List Arith.
 Import ListNotations.
 
@@ -52,6 +52,22 @@ Theorem c02_provider_true_implies_children_true : forall k cs ops c r,
   In c (model k cs ops) -> p_result c = Some r -> r = all_true (p_children c).
 Proof. exact provider_true_implies_children_true. Qed.
 Print Assumptions c02_provider_true_implies_children_true.
+
+(* periodic exporting metric reader (Batch/Periodic.v) *)
+Theorem c02_periodic_flush_true_complete : forall s t k, rreachable s -> In (t, k, true) (r_fl_done s) -> rmark s k <= r_covered s.
+Proof. exact periodic_flush_true_complete. Qed.
+Print Assumptions c02_periodic_flush_true_complete.
+
+Theorem c02_periodic_ticket_mark : forall s t old s', t <> 0 -> r_coll s = None ->
+  raccept s (t, RFaddPending old) = Some s' -> length (r_marks s) = r_pending s ->
+  rmark s' (S old) = r_nrec s /\ r_pending s' = S old.
+Proof. exact periodic_ticket_mark. Qed.
+Print Assumptions c02_periodic_ticket_mark.
+
+Theorem c02_periodic_no_export_after_shutdown : forall s t n, rreachable s -> 0 < r_sh_done s ->
+  raccept s (t, RExpBegin n) = None.
+Proof. exact periodic_no_export_after_shutdown. Qed.
+Print Assumptions c02_periodic_no_export_after_shutdown.
 
 Theorem c02_nonvacuous : exists s, run (init 1 1) demo_trace = Some s /\ In (2, 1, true) (fl_done s) /\ sh_done s <> [] /\
   dropped s = [12] /\ exported s = [[11]].
